@@ -140,6 +140,44 @@ pub fn run_csr_random(out_path: &str, n: usize) {
 		let c = json!({"grp": "csr-random", "_id": format!("csr-random/{}/{}", seed, i), "params": p, "attrs": attrs, "alg": rng.pick(&algs)});
 		run_csr_case(&c, i, seed, &mut pool, &mut out);
 	}
+	// requester keys whose public key octets begin / end with 0x00, begin with 0xff, 0x30 or 0x04 (about one Ed25519 key in 256 each)
+	#[cfg(feature = "crypto")]
+	for (w, want) in ["lead0", "trail0", "leadff", "lead30"].iter().enumerate() {
+		let via = format!("shaped-{}", want);
+		for _ in 0..20000 {
+			let info = new_key(&format!("k-csr-ed25519-{}", via), "ed25519", &mut rng);
+			let hit = match *want {
+				"lead0" => info.raw_pub[0] == 0,
+				"trail0" => info.raw_pub[31] == 0,
+				"leadff" => info.raw_pub[0] == 0xff,
+				_ => info.raw_pub[0] == 0x30 || info.raw_pub[0] == 0x04,
+			};
+			if !hit {
+				continue;
+			}
+			if let Ok(mut k) = live_from_info(info, "pkcs8-explicit") {
+				k.via = via.clone();
+				pool.keys.insert(format!("ed25519/{}", via), vec![k]);
+			}
+			break;
+		}
+		if pool.keys.contains_key(&format!("ed25519/{}", via)) {
+			for j in 0..2 {
+				let mut p = random_params(&mut rng);
+				p["serial"] = json!({"k": "auto", "b": []});
+				p["isCa"] = json!({"k": "NoCa", "pl": {"k": "none", "n": 0}});
+				p["nc"] = json!({"k": "none", "perm": [], "excl": []});
+				p["crldp"] = json!([]);
+				p["aki"] = json!(false);
+				p["custom"] = json!([]);
+				if j == 0 {
+					p["eku"] = json!([]);
+				}
+				let c = json!({"grp": "csr-shaped-key", "_id": format!("csr-shaped-key/{}/{}/{}", seed, want, j), "params": p, "attrs": [], "alg": "ed25519", "via": via});
+				run_csr_case(&c, 100000 + w * 2 + j, seed, &mut pool, &mut out);
+			}
+		}
+	}
 	out.finish();
 }
 
@@ -298,6 +336,11 @@ pub fn run_crl_case(case: &Value, idx: usize, seed: u64, pool: &mut KeyPool, out
 	let key = &v[rng.below(v.len() as u64) as usize];
 	let mut idesc = issuer_desc(&issuer_dn, &issuer_kid);
 	idesc["ku"] = case["issuerKu"].clone();
+	if let Some(v) = case.get("issuerIsCa") {
+		if v.is_object() {
+			idesc["isCa"] = v.clone();
+		}
+	}
 	if case.get("issuerCrlDp").and_then(|v| v.as_bool()).unwrap_or(false) {
 		idesc["crldp"] = json!([[hex(b"http://crl.issuer.example/own.crl")], [hex(b"ldap://crl.issuer.example/second")]]);
 	}
